@@ -73,7 +73,13 @@ def run(ctx):
         for _ in range(12 if tier == "thorough" else 4):
             cases.append(dict(version=rnd.choice([None, 1, 2, 7, 12]), level=rnd.randrange(4), mask=m, fit=True,
                               calls=[(gens.payload(rnd, rnd.choice(gens.KINDS), rnd.randrange(1, 60)), 20)], tag="explicit"))
+    for m in list(range(8)) + [None, None]:
+        for _ in range(3 if tier == "thorough" else 1):
+            cases.append(dict(version=rnd.choice([None, None, 2, 7]), level=rnd.randrange(4), mask=m, fit=True, entry="make-shortcut",
+                              calls=[(gens.payload(rnd, rnd.choice(["lower", "digits", "alnum"]), rnd.randrange(1, 50)), 20)], tag="explicit-shortcut" if m is not None else "auto-shortcut"))
     for c in cases[::3]:
+        if c.get("entry"):
+            continue
         if c["version"] is not None:
             c["prehistory"] = dict(style="resettings", version=rnd.choice([1, 2, 3, 7]), level=rnd.randrange(4), mask=None, data=b"")
             c["fit"] = False if rnd.random() < 0.5 else c["fit"]
